@@ -6,6 +6,7 @@
   alternating UDP and TCP never shows more than K at once (one pool for every listener,
   `NV.C04.gen_single_semaphore` + `concurrent_handlers_le_K`) and is answered in full.
 -/
+import NV.Model.LastMod
 namespace NV
 
 def capEventKinds : List String :=
@@ -50,5 +51,23 @@ the expected canonical line is `ok`. -/
 def stepRaceSoak (toks : List String) : Option String :=
   match toks with
   | ["racesoak"] => some "ok"
+  | _ => none
+
+/-- `lmrace k iters`: per iteration k concurrent responses of one profile, ONE of them announcing a configuration change
+newer than a cached entry.  Whatever the interleaving of the handlers the newest time is the one recorded
+(`NV.C15.lastmod_any_schedule`; evaluated here on the schedule "all look, then all store" of the model), so the entry is
+fetched again in every iteration. -/
+def stepLMRace (toks : List String) : Option String :=
+  match toks with
+  | ["lmrace", ks, ns] =>
+    match ks.toNat?, ns.toNat? with
+    | some k, some n =>
+      if k < 2 ∨ k > 16 ∨ n = 0 ∨ n > 1000000 then some "bad-op" else
+      -- entry cached at time 10; handler 0 announces 20 (the change), the others 1..k-1 (older)
+      let ts : Nat → Nat := fun i => if i = 0 then 20 else i
+      let ids := List.range k
+      let final := (NV.LastMod.run ts (NV.LastMod.init 0) (ids.reverse ++ ids.reverse)).cur
+      some s!"stale={if final < 10 then n else 0}/{n}"
+    | _, _ => some "bad-op"
   | _ => none
 end NV
